@@ -1013,8 +1013,10 @@ Example example_mirror_nonvacuous :
 Proof.
   split; [|split].
   - apply (always_final Wired ex_acts ex_w1). exact ex_always_wired.
-  - apply (always_final Mirror ex_acts ex_w1).
-    exact (mirror_from_fresh 50 ex_setup ex_acts ex_w1_fresh ex_always_wired ex_acts_ok).
+  - pose proof (mirror_from_fresh 50 ex_setup ex_acts) as H. cbv zeta in H.
+    change (run_ops ex_setup (empty_world 50)) with ex_w1 in H.
+    specialize (H ex_w1_fresh ex_always_wired ex_acts_ok).
+    apply always_final in H. exact H.
   - vm_compute. do 2 eexists. repeat split.
 Qed.
 
